@@ -65,6 +65,9 @@ def build_archives(tier="thorough"):
     last = [m for m in ms if m["kind"] != "dir"] + [m for m in ms if m["kind"] == "dir"]
     nd = [i for i, m in enumerate(last) if m["kind"] == "file"]
     A["dirs-last"] = {"blob": ref7z.write(last, {"folders": [nd[:2], nd[2:]], "chains": [Z, C]}), "members": last}
+    # directories stored with a trailing slash of their own (writers that keep the caller's spelling)
+    sl = [dict(m, name=m["name"] + "/") if m["kind"] == "dir" else m for m in ms]
+    A["dir-slash"] = {"blob": ref7z.write(sl, {"folders": [[0, 2], [4, 6]], "chains": [C, Z]}), "members": sl}
     if tier == "quick":
         return A
     A["aes-multi"] = {"blob": ref7z.write(ms, {"folders": [[0], [2, 4], [6]], "chains": [[("LZMA2", {}), ("AES", {})]] * 3, "header": "lzma2+aes"}, password="pw"),
@@ -101,11 +104,11 @@ def build_archives(tier="thorough"):
 
 
 def expected(members, targets, recursive):
-    names = {m["name"]: m for m in members}
-    T = {t[:-1] if t.endswith("/") else t for t in targets}
+    names = {m["name"].rstrip("/"): m for m in members}
+    T = {t.rstrip("/") for t in targets}
     sel = []
     for m in members:
-        n = m["name"]
+        n = m["name"].rstrip("/")
         if n in T:
             sel.append(m)
         elif recursive and any(t in names and names[t]["kind"] == "dir" and n.startswith(t + "/") for t in T):
@@ -118,15 +121,20 @@ def run_case(arch, case, wd):
 
     targets, as_set, slash, recursive, sink, opened = case["targets"], case["as_set"], case["slash"], case["recursive"], case["sink"], case["opened"]
     members = arch["members"]
-    tlist = [t + "/" if slash else t for t in targets]
+    tlist = [t.rstrip("/") + "/" if slash else t for t in targets]
     targ = set(tlist) if as_set else list(tlist)
     want = expected(members, targets, recursive)
     out = []
     path = os.path.join(wd, "a.7z")
-    if opened == "path":
+    old_cwd = os.getcwd()
+    if opened in ("path", "relpath-chdir"):
         with open(path, "wb") as f:
             f.write(arch["blob"])
         src = path
+        if opened == "relpath-chdir":
+            # the natural way to extract into the current directory: open by a relative name, change directory, extract(path=None)
+            os.chdir(wd)
+            src = "a.7z"
     else:
         src = io.BytesIO(arch["blob"])
     try:
@@ -142,18 +150,23 @@ def run_case(arch, case, wd):
                 dest = os.path.join(wd, "out")
                 shutil.rmtree(dest, ignore_errors=True)
                 os.makedirs(dest)
-                z.extract(path=dest, targets=targ, recursive=recursive)
+                if opened == "relpath-chdir":
+                    os.chdir(dest)
+                    z.extract(path=None, targets=targ, recursive=recursive)
+                else:
+                    z.extract(path=dest, targets=targ, recursive=recursive)
                 snap = tree_snapshot(dest)
                 files = {k: v[1] for k, v in snap.items() if v[0] == "file"}
                 dirs = {k for k, v in snap.items() if v[0] == "dir"}
                 expf = {m["name"]: (m["data"] or b"") for m in want if m["kind"] != "dir"}
+                os.chdir(old_cwd)
                 if set(files) != set(expf):
                     out.append(("dir-files", f"files created {sorted(files)} expected {sorted(expf)}"))
                 else:
                     for k in files:
                         if files[k] != expf[k]:
                             out.append(("dir-bytes", f"{k}: bytes differ from extractall"))
-                expd = {m["name"] for m in want if m["kind"] == "dir"}
+                expd = {m["name"].rstrip("/") for m in want if m["kind"] == "dir"}
                 parents = set()
                 for m in want:
                     p = os.path.dirname(m["name"])
@@ -165,6 +178,8 @@ def run_case(arch, case, wd):
                 shutil.rmtree(dest, ignore_errors=True)
     except Exception as ex:
         out.append(("exception", f"{type(ex).__name__}: {ex}"))
+    finally:
+        os.chdir(old_cwd)
     return out
 
 
@@ -194,6 +209,8 @@ def all_cases(arch):
                             for sink in ("factory", "dir"):
                                 for opened in ("stream", "path"):
                                     yield {"targets": t, "as_set": as_set, "slash": slash, "recursive": recursive, "sink": sink, "opened": opened}
+                            if not as_set and not slash and absent is None:
+                                yield {"targets": t, "as_set": False, "slash": False, "recursive": recursive, "sink": "dir", "opened": "relpath-chdir"}
 
 
 _ARCH = None
@@ -252,7 +269,7 @@ def main(tier="quick", seed=0, only=None):
             f"{len(archs)} archives (quick 6, thorough 9: directory entries stored after all files, as 7-Zip writes them; data at PackPos 11 with a file-less folder, dummy padding and folder-level CRCs; two solid folders behind BCJ+LZMA and PPMd; AES folders with an AES header; four single-file folders; a py7zr-written tree with an empty directory and a zero-length file plus an appended folder; reference-written solid LZMA2 folder with 7 entries incl. 2 directories, an empty file and nested files; the same "
             "entries in 3 folders COPY/LZMA2/BZIP2 with interleaved directories and an LZMA-encoded header; py7zr-written 3 append sessions "
             "COPY/LZMA2/COPY) x ALL 2^n subsets of member names x without / with an unrelated absent name / with an absent name that is a string prefix of a member name x list/set x trailing slash on/off x "
-            "recursive False/True x factory/directory sink x opened by stream (sequential) / path (thread-parallel); thorough: also "
+            "recursive False/True x factory/directory sink x opened by stream (sequential) / path (thread-parallel) / a relative name followed by chdir and extract(path=None); thorough: also "
             "with targets in reverse order. Oracle: delivered = named members (+ everything beneath named directory members when "
             "recursive), bytes identical to the members, nothing else created but needed parents. Non-trivial = a proper non-empty subset "
             "is selected."
